@@ -63,7 +63,7 @@ def c09_jobs(tier):
         sh = shapes if which < 3 else (shapes[:2] if tier == "quick" else shapes[:3])
         for (n, m) in sh:
             jobs.append(_al("VerifC09_WellFormed", which, n, m))
-        for kind in range(6):
+        for kind in range(8):
             jobs.append(_al("VerifC09_IllTyped", which, 2, 2, kind=kind))
     return jobs
 
@@ -247,7 +247,7 @@ def _mor(func, chunk, ns, rec=0, faults=0, **kw):
 def c11_jobs(tier):
     jobs = []
     if tier == "quick":
-        hist = [(1, [2]), (2, [1]), (2, [3]), (2, [1, 3]), (2, [3, 1]), (2, [0, 2]), (3, [4])]
+        hist = [(1, [2]), (1, [3]), (2, [1]), (2, [3]), (2, [5]), (2, [6]), (2, [1, 3]), (2, [3, 1]), (2, [0, 2]), (3, [4])]
     else:
         hist = [(1, [2]), (1, [3]), (2, [1]), (2, [2]), (2, [3]), (2, [5]), (3, [2]), (3, [4]), (3, [7]),
                 (2, [1, 3]), (2, [3, 1]), (2, [0, 2]), (2, [3, 3]), (3, [2, 4]), (2, [1, 3, 1]), (2, [3, 1, 3])]
@@ -328,6 +328,9 @@ def c19_jobs(tier):
     for (t, b, n, pre) in ([(2, 0, 2, 2), (2, 1, 3, 1), (3, 0, 2, 1)] if tier == "quick" else [(2, 0, 2, 3), (2, 1, 3, 2), (3, 0, 3, 2), (3, 1, 2, 2)]):
         jobs.append({"pkgdir": P, "func": "VerifC19_ProcessorStop", "params": {"threads": t, "buffer": b, "nops": n},
                      "sched": "sym", "preempt": pre, "timeout_s": 600 if tier == "quick" else 3000})
+    for (n, t, c, pre) in ([(3, 1, 1, 1), (3, 2, 1, 1)] if tier == "quick" else [(3, 1, 1, 2), (3, 2, 1, 2), (4, 2, 2, 2), (4, 2, 1, 1)]):
+        jobs.append({"pkgdir": P, "func": "VerifC19_MapFail", "params": {"n": n, "threads": t, "chunk": c}, "sched": "sym", "preempt": pre,
+                     "timeout_s": 600 if tier == "quick" else 3000})
     for (n, t, c, pre) in ([(0, 1, 1, 1), (3, 2, 1, 1), (4, 2, 3, 1)] if tier == "quick" else [(0, 1, 1, 2), (3, 2, 1, 2), (4, 2, 3, 2), (4, 1, 2, 2), (2, 2, 3, 2)]):
         jobs.append({"pkgdir": P, "func": "VerifC19_Map", "params": {"n": n, "threads": t, "chunk": c}, "sched": "sym", "preempt": pre,
                      "timeout_s": 600 if tier == "quick" else 3000})
@@ -384,6 +387,10 @@ def c03_jobs(tier):
         jobs.append({"pkgdir": "io/featio/gff", "func": "VerifC03_GffStructured", "params": {"meta": meta}, "timeout_s": 900 if tier == "quick" else 3000})
     jobs.append({"pkgdir": "io/seqio/fasta", "func": "VerifC03_Fasta", "params": {"n": 3, "nonascii": 1}})
     jobs.append({"pkgdir": "io/seqio/fastq", "func": "VerifC03_Fastq", "params": {"n": 3, "nonascii": 1}})
+    for (sl, ql, crlf) in ([(1, 1, 0), (1, 2, 0), (2, 1, 0), (2, 3, 1), (0, 1, 0)] if tier == "quick" else
+                           [(1, 1, 0), (1, 2, 0), (2, 1, 0), (2, 3, 1), (0, 1, 0), (2, 2, 1), (3, 2, 0), (1, 3, 0), (3, 3, 0), (1, 0, 0)]):
+        jobs.append({"pkgdir": "io/seqio/fastq", "func": "VerifC03_FastqStructured", "params": {"seqlen": sl, "quallen": ql, "crlf": crlf},
+                     "timeout_s": 900 if tier == "quick" else 3000})
     return jobs
 
 
@@ -441,6 +448,8 @@ def c04_jobs(tier):
     for bt in ((3, 6) if tier == "quick" else (3, 4, 5, 6, 12)):
         jobs.append({"pkgdir": "io/featio/bed", "func": "VerifC04_Bed", "params": {"bedtype": bt, "records": 2}})
     jobs.append({"pkgdir": "io/featio/gff", "func": "VerifC04_Gff", "params": {"records": 2}})
+    for (blank, ft) in ((1, 1), (0, 0), (1, 0)):
+        jobs.append({"pkgdir": "io/featio/gff", "func": "VerifC04_GffMeta", "params": {"blank": blank, "feature": ft}})
     for recs in ([[2], [1, 2]] if tier == "quick" else [[2], [1, 2], [4], [2, 0, 3]]):
         p = {"records": len(recs), "name": 1, "desc": 1}
         for i, n in enumerate(recs):
